@@ -88,7 +88,7 @@ SETTINGS = {
     'exact_penetrance', 'drop_level', 'flatten', 'layer', 'round_to_int',
     'n_processors', 'chunk_size', 'rows_at_a_time', 'max_gb', 'cloud_safe',
     'behemoth_cutoff', 'n_per_utility_override', 'min_markers', 'boring_t',
-    'big_nu', 'expected_max', 'tmp_dir',
+    'big_nu', 'expected_max', 'tmp_dir', 'row_chunk_size',
 }
 
 
